@@ -66,6 +66,33 @@ def run_scenario(sc, keep_on_abort=False):
     return stats, reg, crit
 
 
+class InProcessMp:
+    """multiprocessing as the engine uses it: Pool(processes, initializer) as a context manager, map_async(f, iterable, callback).get():
+    f is applied to every item, the list of results (in the order of the items) is handed to the callback once.  Run in-process."""
+
+    class Pool:
+        def __init__(self, processes=None, initializer=None, initargs=()):
+            if initializer is not None:
+                initializer(*initargs)
+
+        def __enter__(self):
+            return self
+
+        def __exit__(self, *a):
+            return False
+
+        def map_async(self, fn, iterable, callback=None, **kw):
+            res = [fn(x) for x in iterable]
+            if callback is not None:
+                callback(res)
+
+            class _R:
+                def get(self_inner, timeout=None):
+                    return res
+
+            return _R()
+
+
 def replay_run(sc):
     """run the real engine with the scenario's sample-size / convergence answers and concrete payoffs; compare with the definition"""
     ctxc = ConcreteCtx({k: int(v) for k, v in sc["ns"].items()}, {k: bool(v) for k, v in sc["conv"].items()})
@@ -74,10 +101,11 @@ def replay_run(sc):
     crit.max_calls = MAX_PASSES + 2
     cc = CR.ConvergenceCriteria(criteria=crit.criteria, compute_mc_paths=_limited(crit))
     cfg = CFG.ConfigurationMultiLevel(convergence_rates=CFG.ConvergenceRates(alpha=1.0, beta=1.0, gamma=1.0), convergence_criteria=cc,
-                                      initial_level=sc["initial_level"], maximum_level=sc["level_max"], initial_mc_paths=sc["n0"], nb_of_processes=1)
+                                      initial_level=sc["initial_level"], maximum_level=sc["level_max"], initial_mc_paths=sc["n0"], nb_of_processes=2 if sc.get("pool") else 1)
     cfg.initialisation_seed = lambda multiprocessing=False: None
     eng = ME.Engine(cfg, ScriptedCoupling(reg, 0.9))
     prod = ScriptedProduct(2.0)
+    undo = shims.install(ME, mp=InProcessMp) if sc.get("pool") else (lambda: None)
     try:
         if sc.get("fixed"):
             stats = eng.price_with_constant_mc_paths_and_level(prod)
@@ -85,6 +113,8 @@ def replay_run(sc):
             stats = eng.price(prod, 0.1)
     except PathAbort:
         return False, "bounded number of passes exceeded in the replay"
+    finally:
+        undo()
     want = 0.0
     details = []
     res = stats.mlmc_results
@@ -120,11 +150,11 @@ def _limited(crit):
     return f
 
 
-def _scenario(ctx, crit, il, n0, lm, bound, fixed=False, offset=0):
+def _scenario(ctx, crit, il, n0, lm, bound, fixed=False, offset=0, pool=False):
     def b(m):
         ns = {k: m[k] for k in ctx.symbols if k.startswith("Ns[")}
         conv = {k: m.b(k) for k in ctx.symbols if k.startswith("converged[")}
-        return {"initial_level": il, "n0": n0, "level_max": lm, "bound": bound, "ns": ns, "conv": conv, "fixed": fixed, "offset": offset}
+        return {"initial_level": il, "n0": n0, "level_max": lm, "bound": bound, "ns": ns, "conv": conv, "fixed": fixed, "offset": offset, "pool": pool}
 
     return b
 
@@ -177,19 +207,23 @@ def _check_results(ctx, stats, reg, df, notional, rp, info, region_new_level, ku
             ctx.prove("C05.coarse_payoff_is_zero_at_level_0", all((not V.is_sym(c)) and c == 0.0 for f, c in S), info=info, replay=rp)
 
 
-def h_adaptive(ctx, il, n0, lm, bound, passes=MAX_PASSES):
-    eng, prod, reg, crit, df, notional = make_engine(ctx, il, n0, lm, bound)
+def h_adaptive(ctx, il, n0, lm, bound, passes=MAX_PASSES, pool=False):
+    """pool: the engine's worker-pool branch (nb_of_processes != 1), the pool being run in-process (InProcessMp)"""
+    eng, prod, reg, crit, df, notional = make_engine(ctx, il, n0, lm, bound, nb_of_processes=2 if pool else 1)
     crit.max_calls = passes
     eng.configuration.convergence_criteria.compute_mc_paths = _limited(crit)
     rmse = ctx.real("rmse")
     ctx.assume(rmse > 0)
+    undo = shims.install(ME, mp=InProcessMp) if pool else (lambda: None)
     try:
         stats = eng.price(prod, rmse)
     except ZeroDivisionError:
         # a run that ends with a level holding zero samples divides sum_cost by N_l = 0 (nan in float arithmetic): such runs leave through
         # the fall-through exit of the loop, which is C06's subject
         raise PathAbort()
-    rp = (replay_run, _scenario(ctx, crit, il, n0, lm, bound))
+    finally:
+        undo()
+    rp = (replay_run, _scenario(ctx, crit, il, n0, lm, bound, pool=pool))
     added = len(stats.mc_statistics) > il + 1 or any(n > il + 1 for n, _ in crit.ns_calls)
     _check_results(ctx, stats, reg, df, notional, rp, {"il": il, "n0": n0, "lm": lm, "passes": len(crit.ns_calls)}, added, kurtosis=(bound <= 1 or n0 + bound <= 2))
 
@@ -301,6 +335,8 @@ def harnesses(tier):
         [(0, 1, 1, 3, 4), (0, 2, 1, 3, 4), (1, 1, 1, 3, 4), (2, 2, 2, 2, 4), (1, 1, 2, 2, 3), (1, 2, 2, 3, 2), (2, 1, 3, 1, 4), (0, 1, 2, 2, 3), (1, 3, 2, 2, 3), (0, 3, 0, 4, 5)]
     for il, n0, lm, b, ps in cfgs:
         hs.append(Harness(f"adaptive.L{il}.N{n0}.M{lm}.B{b}.P{ps}", h_adaptive, {"il": il, "n0": n0, "lm": lm, "bound": b, "passes": ps}, max_paths=120000 if not q else 6000, batch=10))
+    for il, n0, lm, b, ps in ([(0, 1, 1, 2, 3)] if q else [(0, 1, 1, 2, 4), (1, 1, 1, 2, 4), (0, 2, 1, 2, 3)]):
+        hs.append(Harness(f"adaptive.pool.L{il}.N{n0}.M{lm}.B{b}.P{ps}", h_adaptive, {"il": il, "n0": n0, "lm": lm, "bound": b, "passes": ps, "pool": True}, max_paths=120000 if not q else 6000, batch=10))
     for il, n0, lm in ([(0, 2, 1), (1, 1, 2), (2, 2, 1), (0, 1, 2), (1, 2, 4)] if q else [(0, 2, 1), (1, 1, 2), (2, 2, 1), (0, 1, 2), (1, 2, 4), (0, 3, 3), (2, 1, 0), (3, 2, 2), (0, 2, 5)]):
         hs.append(Harness(f"fixed.L{il}.N{n0}.M{lm}", h_fixed, {"il": il, "n0": n0, "lm": lm}, max_paths=2000))
     for il, n0, b in ([(0, 100, 1)] if q else [(0, 100, 2), (1, 100, 2), (0, 200, 3)]):
